@@ -4,6 +4,8 @@ package main
 
 import (
 	"fmt"
+	"go/constant"
+	"go/token"
 	"go/types"
 	"sort"
 	"strings"
@@ -17,6 +19,7 @@ type TableEntry struct {
 	Val     ssa.Value // resolved value: *ssa.Function, *ssa.Const, *ssa.Call (closure factory), …
 	Fn      *ssa.Function
 	Bound   []ssa.Value // for closures produced by a factory call: the factory's arguments
+	Recv    ssa.Value   // for a bound method value (x.m): the receiver x; Fn is the method itself
 	Factory *ssa.Function
 	Pos     ssa.Instruction
 }
@@ -24,6 +27,7 @@ type TableEntry struct {
 type Table struct {
 	Global  *ssa.Global
 	Fn      *ssa.Function // the table is a dispatch function (switch over the key) instead of a map
+	Array   bool          // the table is an array indexed by the key (absent entries hold the zero value)
 	Entries []TableEntry
 	Err     string
 }
@@ -91,12 +95,98 @@ func (c *Ctx) readTable0(pkg, name string) *Table {
 			}
 		}
 	}
+	if nStores == 0 && arrayOf(g.Type()) != nil {
+		// var T = [N]V{k: v, …} initialised element by element in place
+		for _, b := range init.Blocks {
+			for _, in := range b.Instrs {
+				ia, ok := in.(*ssa.IndexAddr)
+				if !ok || ia.X != ssa.Value(g) {
+					continue
+				}
+				if _, isC := ia.Index.(*ssa.Const); !isC {
+					t.Err = "array table " + name + " is written with a non-constant index in init"
+					return t
+				}
+				for _, r2 := range *ia.Referrers() {
+					if st, ok := r2.(*ssa.Store); ok && st.Addr == ssa.Value(ia) {
+						t.Entries = append(t.Entries, c.mkEntry(ia.Index, st.Val, st))
+					}
+				}
+			}
+		}
+		// written only in init?
+		for _, f := range c.Funcs {
+			if f == init {
+				continue
+			}
+			for _, b := range f.Blocks {
+				for _, in := range b.Instrs {
+					if ia, ok := in.(*ssa.IndexAddr); ok && ia.X == ssa.Value(g) {
+						for _, r2 := range *ia.Referrers() {
+							if st, ok := r2.(*ssa.Store); ok && st.Addr == ssa.Value(ia) {
+								t.Err = "array table " + name + " is written outside init by " + fnName(f)
+								return t
+							}
+						}
+					}
+				}
+			}
+		}
+		sort.SliceStable(t.Entries, func(i, j int) bool {
+			a, _ := constIntVal(t.Entries[i].Key)
+			b, _ := constIntVal(t.Entries[j].Key)
+			return a < b
+		})
+		t.Array = true
+		c.nameArrayKeys(t)
+		return t
+	}
 	if nStores != 1 {
 		t.Err = fmt.Sprintf("global %s stored %d times in init (expected exactly one composite literal)", name, nStores)
 		return t
 	}
 	c.readContainer(stored, t)
+	if t.Array {
+		c.nameArrayKeys(t)
+	}
 	return t
+}
+
+// nameArrayKeys: an array table indexed by an enum (renderers[op], terminalTokens[tok.Typ]) has plain
+// integers as indices in its literal; the enum type is read off the places that index the table, and the
+// entries' key names become the enum constants' names so that the table reads like the map it replaces.
+func (c *Ctx) nameArrayKeys(t *Table) {
+	var keyType *types.Named
+	for _, f := range c.Funcs {
+		for _, b := range f.Blocks {
+			for _, in := range b.Instrs {
+				ia, ok := in.(*ssa.IndexAddr)
+				if !ok || ia.X != ssa.Value(t.Global) {
+					continue
+				}
+				it := ia.Index.Type()
+				if cv, ok := ia.Index.(*ssa.Convert); ok {
+					it = cv.X.Type()
+				}
+				if n, ok := it.(*types.Named); ok && n.Obj().Pkg() != nil && strings.HasPrefix(n.Obj().Pkg().Path(), modPath) {
+					if keyType != nil && !types.Identical(keyType, n) {
+						return
+					}
+					keyType = n
+				}
+			}
+		}
+	}
+	if keyType == nil {
+		return
+	}
+	for i := range t.Entries {
+		if n, ok := constIntVal(t.Entries[i].Key); ok {
+			k := ssa.NewConst(constant.MakeInt64(n), keyType)
+			t.Entries[i].Key = k
+			t.Entries[i].KeyName = c.constName(k)
+		}
+	}
 }
 
 // dispatchSpecs: the tables that may equally be written as a function switching over the key. The
@@ -247,6 +337,17 @@ func (c *Ctx) readContainer(stored ssa.Value, t *Table) {
 				if st, ok := r2.(*ssa.Store); ok && st.Addr == ia {
 					t.Entries = append(t.Entries, c.mkEntry(ia.Index, st.Val, st))
 				}
+				// a slice of structs carrying the function in one field ({name: "and", fn: and}): the entry
+				// is the value of the struct's only function-typed field
+				if fa, ok := r2.(*ssa.FieldAddr); ok {
+					if ft := fieldVar(fa.X.Type(), fa.Field); ft != nil && isFuncType(ft.Type()) && singleFuncField(fa.X.Type()) {
+						for _, r3 := range *fa.Referrers() {
+							if st, ok := r3.(*ssa.Store); ok && st.Addr == ssa.Value(fa) {
+								t.Entries = append(t.Entries, c.mkEntry(ia.Index, st.Val, st))
+							}
+						}
+					}
+				}
 			}
 		}
 		sort.SliceStable(t.Entries, func(i, j int) bool {
@@ -254,6 +355,34 @@ func (c *Ctx) readContainer(stored ssa.Value, t *Table) {
 			b, _ := constIntVal(t.Entries[j].Key)
 			return a < b
 		})
+	case *ssa.UnOp:
+		// var T = [N]V{k: v, …}: the literal is built in a local array and stored whole
+		arr, ok := x.X.(*ssa.Alloc)
+		if !ok || x.Op != token.MUL {
+			t.Err = fmt.Sprintf("unsupported table initialiser %T", stored)
+			return
+		}
+		if _, isArr := arr.Type().Underlying().(*types.Pointer).Elem().Underlying().(*types.Array); !isArr {
+			t.Err = "table initialised from a local that is not an array literal"
+			return
+		}
+		for _, ref := range *arr.Referrers() {
+			ia, ok := ref.(*ssa.IndexAddr)
+			if !ok {
+				continue
+			}
+			for _, r2 := range *ia.Referrers() {
+				if st, ok := r2.(*ssa.Store); ok && st.Addr == ia {
+					t.Entries = append(t.Entries, c.mkEntry(ia.Index, st.Val, st))
+				}
+			}
+		}
+		sort.SliceStable(t.Entries, func(i, j int) bool {
+			a, _ := constIntVal(t.Entries[i].Key)
+			b, _ := constIntVal(t.Entries[j].Key)
+			return a < b
+		})
+		t.Array = true
 	case *ssa.Call:
 		// var T = buildT(): the builder returns a fresh map / slice literal on its only return
 		f := x.Call.StaticCallee()
@@ -384,10 +513,14 @@ func (c *Ctx) mkEntry(key, val ssa.Value, at ssa.Instruction) TableEntry {
 	e.Val = v
 	switch x := v.(type) {
 	case *ssa.Function:
-		e.Fn = x
+		e.Fn = unwrapThunk(x)
 	case *ssa.MakeClosure:
 		e.Fn = x.Fn.(*ssa.Function)
 		e.Bound = x.Bindings
+		// a bound method value x.m: the synthetic wrapper forwards (receiver, parameters…) to the method
+		if m := boundMethod(e.Fn); m != nil && len(x.Bindings) == 1 {
+			e.Fn, e.Recv, e.Bound = m, x.Bindings[0], nil
+		}
 	case *ssa.Call:
 		if f := x.Call.StaticCallee(); f != nil {
 			// closure factory: the callee returns a MakeClosure on every return
@@ -411,6 +544,84 @@ func (c *Ctx) mkEntry(key, val ssa.Value, at ssa.Instruction) TableEntry {
 		}
 	}
 	return e
+}
+
+// boundMethod: f is the synthetic `x.m$bound` wrapper: one free variable (the receiver), its body calls the
+// method with (receiver, params…) and returns the results.
+func boundMethod(f *ssa.Function) *ssa.Function {
+	if f == nil || f.Synthetic == "" || len(f.FreeVars) != 1 || len(f.Blocks) != 1 {
+		return nil
+	}
+	var callee *ssa.Function
+	for _, in := range f.Blocks[0].Instrs {
+		switch x := in.(type) {
+		case *ssa.Call:
+			g := x.Call.StaticCallee()
+			if g == nil || callee != nil || g.Signature.Recv() == nil || len(x.Call.Args) != len(f.Params)+1 {
+				return nil
+			}
+			callee = g
+		case *ssa.Return, *ssa.DebugRef, *ssa.UnOp, *ssa.Extract:
+		default:
+			return nil
+		}
+	}
+	return callee
+}
+
+// structLiteralFields: v is (a load of) a local struct composite literal; the values stored in its fields.
+func structLiteralFields(v ssa.Value) map[string]ssa.Value {
+	if ld, ok := v.(*ssa.UnOp); ok {
+		v = ld.X
+	}
+	al, ok := v.(*ssa.Alloc)
+	if !ok {
+		return nil
+	}
+	out := map[string]ssa.Value{}
+	for _, ref := range *al.Referrers() {
+		fa, ok := ref.(*ssa.FieldAddr)
+		if !ok {
+			continue
+		}
+		for _, r2 := range *fa.Referrers() {
+			if st, ok := r2.(*ssa.Store); ok && st.Addr == ssa.Value(fa) {
+				out[fieldName(fa.X.Type(), fa.Field)] = st.Val
+			}
+		}
+	}
+	return out
+}
+
+// unwrapThunk: a synthetic wrapper (method expression / bound method thunk) whose body only forwards its
+// parameters to a declared function stands for that function.
+func unwrapThunk(f *ssa.Function) *ssa.Function {
+	if f == nil || f.Synthetic == "" || len(f.Blocks) != 1 {
+		return f
+	}
+	var callee *ssa.Function
+	for _, in := range f.Blocks[0].Instrs {
+		switch x := in.(type) {
+		case *ssa.Call:
+			g := x.Call.StaticCallee()
+			if g == nil || callee != nil || len(x.Call.Args) != len(f.Params) {
+				return f
+			}
+			for i, a := range x.Call.Args {
+				if a != ssa.Value(f.Params[i]) {
+					return f
+				}
+			}
+			callee = g
+		case *ssa.Return, *ssa.DebugRef:
+		default:
+			return f
+		}
+	}
+	if callee == nil {
+		return f
+	}
+	return callee
 }
 
 func closureReturned(f *ssa.Function) *ssa.MakeClosure {
@@ -645,6 +856,24 @@ func (c *Ctx) pgTable0() *PGTable {
 		}
 	}
 	return pt
+}
+
+// singleFuncField: the struct (or pointer to struct) has exactly one field of function type.
+func singleFuncField(t types.Type) bool {
+	if p, ok := t.Underlying().(*types.Pointer); ok {
+		t = p.Elem()
+	}
+	st, ok := t.Underlying().(*types.Struct)
+	if !ok {
+		return false
+	}
+	n := 0
+	for i := 0; i < st.NumFields(); i++ {
+		if isFuncType(st.Field(i).Type()) {
+			n++
+		}
+	}
+	return n == 1
 }
 
 func isFuncType(t types.Type) bool {
